@@ -314,9 +314,52 @@ theorem first_fail {α : Type} (p : α → Bool) : ∀ (l : List α), l.all p = 
       exact ⟨i + 1, m, by simp [hpa, h1], by simpa using h2, h3⟩
 
 
+/-- the events Close waits for: steps of Close after its begin, of the partition writers' goroutines, of the broker, and
+of calls already inside WriteMessages.  Not in the set: new callers (`enter`, `begin_`, `empty`), a new Close
+(`closeBegin`) or its return, timers, closing a queue that is closed already, and the events that need an open writer. -/
+def closing (s : State) : Event → Bool
+  | .closeMarked _ => true
+  | .detach _ _ _ _ => true
+  | .qput _ _ _ => true
+  | .qget _ _ => true
+  | .qclose q =>
+    match s.qOf q with
+    | some pw => (match s.pws pw with | some P => !P.qclosed | none => false)
+    | none => false
+  | .attempt _ _ _ => true
+  | .produce _ _ _ _ => true
+  | .attemptDone _ _ _ _ => true
+  | .completion _ _ _ => true
+  | .complete _ _ _ => true
+  | .assign _ _ _ => true
+  | .reject _ _ _ => true
+  | .ret _ _ => true
+  | _ => false
+
+/-- an internal event of a partition writer without an open batch is one of them (its timers have nothing to do) -/
+theorem internalFor_closing (cfg : Cfg) (s : State) (pw : Nat) (P : PW) (hP : s.pws pw = some P) (hcurr : P.curr = none)
+    (e : Event) (hint : internalFor s pw e = true) (hen : (step cfg s e).isSome = true) : closing s e = true := by
+  cases e
+  case timerFire pw' b att =>
+    exfalso
+    cases att
+    · simp [internalFor] at hint
+    · simp only [internalFor, Bool.and_eq_true, beq_iff_eq] at hint
+      obtain ⟨h1, -⟩ := hint
+      subst h1
+      simp only [step, hP] at hen
+      split at hen
+      · simp at hen
+      · split at hen
+        · rename_i hg
+          have := hg.2.2
+          simp [hcurr] at this
+        · simp at hen
+  all_goals first | rfl | (simp [internalFor] at hint)
+
 /-- while Close holds the writer mutex one of its own steps is enabled -/
 theorem closer_progress (cfg : Cfg) (hmax : 1 ≤ cfg.maxAttempts) (s : State) (hr : Reachable cfg s) (hc : s.closed = true) (hw : s.wlock = .closer) :
-    ∃ e, driven e = true ∧ (step cfg s e).isSome = true := by
+    ∃ e, driven e = true ∧ closing s e = true ∧ (step cfg s e).isSome = true := by
   have hS := invSched cfg s hr
   have hP := pi_reachable cfg s hr
   -- no call holds the mutex, so no batch is waiting for its first message
@@ -327,7 +370,7 @@ theorem closer_progress (cfg : Cfg) (hmax : 1 ≤ cfg.maxAttempts) (s : State) (
       have := (invFresh cfg s hr).freshLock (by simp [hf])
       rw [hw] at this; cases this
   by_cases hall : s.pwIds.all (fun pw => match s.pws pw with | some P => P.qclosed | none => false) = true
-  · exact ⟨.closeMarked 0, rfl, by simp only [step]; rw [if_pos ⟨hw, hall⟩]; rfl⟩
+  · exact ⟨.closeMarked 0, rfl, rfl, by simp only [step]; rw [if_pos ⟨hw, hall⟩]; rfl⟩
   · have : ∃ pw ∈ s.pwIds, (match s.pws pw with | some P => P.qclosed | none => false) = false := by
       simpa [List.all_eq_true] using hall
     obtain ⟨pw, hmem, hnot⟩ := this
@@ -347,17 +390,19 @@ theorem closer_progress (cfg : Cfg) (hmax : 1 ≤ cfg.maxAttempts) (s : State) (
           | some x =>
             have := (invProg cfg hmax s hr).pw pw P hPw
             exact absurd (this.pendingCurr (by simp [hp])) (by simp [hcurr])
-        exact ⟨.detach pw b .close 0, rfl, by simp [step, stepDetach, hPw, hB, hcurr, hpend, hdet, whyOk, hc, hw, hfr]⟩
+        exact ⟨.detach pw b .close 0, rfl, rfl, by simp [step, stepDetach, hPw, hB, hcurr, hpend, hdet, whyOk, hc, hw, hfr]⟩
       | none =>
         cases hpend : P.pending with
-        | some b => exact ⟨.qput P.q b true, rfl, by simp [step, hqof, hPw, hpend, hcurr, hq]⟩
-        | none => exact ⟨.qclose P.q, rfl, by simp [step, hqof, hPw, hc, hw, hcurr, hpend]⟩
+        | some b => exact ⟨.qput P.q b true, rfl, rfl, by simp [step, hqof, hPw, hpend, hcurr, hq]⟩
+        | none => exact ⟨.qclose P.q, rfl, by simp [closing, hqof, hPw, hq], by simp [step, hqof, hPw, hc, hw, hcurr, hpend]⟩
 
 
 /-- after Close released the mutex, a partition writer whose goroutine has not exited can take a step -/
 theorem sender_progress (cfg : Cfg) (hmax : 1 ≤ cfg.maxAttempts) (s : State) (hr : Reachable cfg s) (hc : s.closed = true)
     (hw : s.wlock = .free) (pw : Nat) (P : PW) (hPw : s.pws pw = some P) (hne : P.sender ≠ .exited) :
-    ∃ e, driven e = true ∧ (step cfg s e).isSome = true := by
+    ∃ e, driven e = true ∧ closing s e = true ∧ (step cfg s e).isSome = true := by
+  have hq0 := qi_reachable cfg s hr hc (by rw [hw]; exact fun h => nomatch h) pw P hPw
+  have hcurr : P.curr = none := ((di_reachable cfg s hr).qcl pw P hPw hq0).2.1
   by_cases hpipe : P.pipe = []
   · have hqof := (invSched cfg s hr).qOfInv pw P hPw
     have hq := qi_reachable cfg s hr hc (by rw [hw]; exact fun h => nomatch h) pw P hPw
@@ -374,7 +419,7 @@ theorem sender_progress (cfg : Cfg) (hmax : 1 ≤ cfg.maxAttempts) (s : State) (
       | ready b k => have : b ∈ P.pipe := sender_mem_pipe (by simp [hs, Sender.batch?]); rw [hpipe] at this; cases this
       | attempting b k br => have : b ∈ P.pipe := sender_mem_pipe (by simp [hs, Sender.batch?]); rw [hpipe] at this; cases this
       | finishing b c cb => have : b ∈ P.pipe := sender_mem_pipe (by simp [hs, Sender.batch?]); rw [hpipe] at this; cases this
-    exact ⟨.qget P.q none, rfl, by simp [step, hqof, hPw, hidle, hqu, hq]⟩
+    exact ⟨.qget P.q none, rfl, rfl, by simp [step, hqof, hPw, hidle, hqu, hq]⟩
   · have hfr : s.fresh = none := by
       cases hf : s.fresh with
       | none => rfl
@@ -382,7 +427,7 @@ theorem sender_progress (cfg : Cfg) (hmax : 1 ≤ cfg.maxAttempts) (s : State) (
         have := (invFresh cfg s hr).freshLock (by simp [hf])
         rw [hw] at this; cases this
     obtain ⟨e, hint, hen⟩ := internal_enabled cfg hmax s hr hfr pw P hPw hpipe
-    exact ⟨e, internalFor_driven s pw e hint, hen⟩
+    exact ⟨e, internalFor_driven s pw e hint, internalFor_closing cfg s pw P hPw hcurr e hint hen, hen⟩
 
 
 theorem all_done_of_exited (s : State) (h : DI s) (hall : ∀ pw P, s.pws pw = some P → P.sender = .exited) :
@@ -399,26 +444,26 @@ theorem all_done_of_exited (s : State) (h : DI s) (hall : ∀ pw P, s.pws pw = s
 returned can take its next step (towards ErrClosedPipe, or its return) -/
 theorem call_progress (cfg : Cfg) (s : State) (hr : Reachable cfg s) (hc : s.closed = true) (hw : s.wlock = .free)
     (hall : ∀ pw P, s.pws pw = some P → P.sender = .exited) (c : Nat) (C : Call) (hC : s.calls c = some C)
-    (hph : C.phase ≠ .returned) : ∃ e, driven e = true ∧ (step cfg s e).isSome = true := by
+    (hph : C.phase ≠ .returned) : ∃ e, driven e = true ∧ closing s e = true ∧ (step cfg s e).isSome = true := by
   have hS := cs_reachable cfg s hr c C hC
   -- the next index to balance, when the messages all fit
   have next : allFit cfg C.msgs = true → (C.phase = .begun ∨ C.phase = .assigning) → C.assign.length < C.msgs.length →
-      ∃ e, driven e = true ∧ (step cfg s e).isSome = true := by
+      ∃ e, driven e = true ∧ closing s e = true ∧ (step cfg s e).isSome = true := by
     intro hfit hp hlt
     obtain ⟨m, hm⟩ : ∃ m, C.msgs[C.assign.length]? = some m := ⟨C.msgs[C.assign.length], by simp [hlt]⟩
     cases hct : chooseTopic cfg m with
     | some t =>
-      refine ⟨.assign c C.assign.length (t, 0), rfl, ?_⟩
+      refine ⟨.assign c C.assign.length (t, 0), rfl, rfl, ?_⟩
       simp only [step, hC]
       rw [if_pos ⟨hp, trivial, hfit, by simp [msgAt, hm, hct]⟩]; rfl
     | none =>
-      refine ⟨.reject c .topic C.assign.length, rfl, ?_⟩
+      refine ⟨.reject c .topic C.assign.length, rfl, rfl, ?_⟩
       simp only [step, stepReject, hC]
       rw [if_pos ⟨hp, trivial, hfit, by simp [msgAt, hm, hct]⟩]; rfl
   cases hp : C.phase with
   | returned => exact absurd hp hph
   | rejectedClosed =>
-    exact ⟨.ret c .closed, rfl, by simp [step, stepRet, hC, hp]⟩
+    exact ⟨.ret c .closed, rfl, rfl, by simp [step, stepRet, hC, hp]⟩
   | batching =>
     have := hS.batching hp
     rw [hw] at this; cases this
@@ -432,19 +477,19 @@ theorem call_progress (cfg : Cfg) (s : State) (hr : Reachable cfg s) (hc : s.clo
     | true => exact next hfit (Or.inl hp) hlen
     | false =>
       obtain ⟨i, m, h1, h2, h3⟩ := first_fail _ C.msgs hfit
-      refine ⟨.reject c .toolarge i, rfl, ?_⟩
+      refine ⟨.reject c .toolarge i, rfl, rfl, ?_⟩
       simp only [step, stepReject, hC]
       rw [if_pos ⟨hp, h1, by simp [msgAt, h2]; simpa using h3⟩]; rfl
   | assigning =>
     obtain ⟨hfit, hle⟩ := hS.assigning hp
     rcases Nat.lt_or_ge C.assign.length C.msgs.length with hlt | hge
     · exact next hfit (Or.inr hp) hlt
-    · refine ⟨.reject c .closed 0, rfl, ?_⟩
+    · refine ⟨.reject c .closed 0, rfl, rfl, ?_⟩
       simp only [step, stepReject, hC]
       rw [if_pos ⟨hw, hc, hp, by omega⟩]; rfl
   | batched =>
     cases hasync : cfg.async with
-    | true => exact ⟨.ret c .async, rfl, by simp [step, stepRet, hC, hp, hasync]⟩
+    | true => exact ⟨.ret c .async, rfl, rfl, by simp [step, stepRet, hC, hp, hasync]⟩
     | false =>
       have hpl := ai_reachable cfg s hr c C hC (by simp [accepted, hp])
       simp only [Call.placedAll, List.all_eq_true, List.mem_range] at hpl
@@ -461,11 +506,11 @@ theorem call_progress (cfg : Cfg) (s : State) (hr : Reachable cfg s) (hc : s.clo
           obtain ⟨code, hcode⟩ := hdone b B hB
           simp [codes, hi, hpi, batchDone, hB, hcode]
       by_cases hz : codes.any (· != 0) = true
-      · refine ⟨.ret c (.werr codes), rfl, ?_⟩
+      · refine ⟨.ret c (.werr codes), rfl, rfl, ?_⟩
         simp only [step, stepRet, hC]
         rw [if_pos ⟨hasync, hp, hlen, by
           rw [List.all_eq_true]; intro i hi; rw [List.mem_range] at hi; simp [hF i hi], hz⟩]; rfl
-      · refine ⟨.ret c .ok, rfl, ?_⟩
+      · refine ⟨.ret c .ok, rfl, rfl, ?_⟩
         simp only [step, stepRet, hC]
         rw [if_pos ⟨hasync, hp, by
           rw [List.all_eq_true]; intro i hi; rw [List.mem_range] at hi
@@ -484,18 +529,20 @@ theorem call_progress (cfg : Cfg) (s : State) (hr : Reachable cfg s) (hc : s.clo
 release the mutex), of a partition writer's goroutine (take a batch, attempt, the broker's decision, Completion,
 complete, exit), or of a call already inside WriteMessages (its next balancing step, ErrClosedPipe, its return) —
 no new caller, no context cancellation and no batch timer is needed. -/
-theorem close_progress (cfg : Cfg) (hmax : 1 ≤ cfg.maxAttempts) (s : State) (hr : Reachable cfg s)
+theorem close_progress' (cfg : Cfg) (hmax : 1 ≤ cfg.maxAttempts) (s : State) (hr : Reachable cfg s)
     (hc : s.closed = true) (hn : step cfg s .closeReturn = none) :
-    ∃ e, driven e = true ∧ (step cfg s e).isSome = true := by
+    ∃ e, driven e = true ∧ (s.entered = 0 → closing s e = true) ∧ (step cfg s e).isSome = true := by
   have hD := di_reachable cfg s hr
   cases hw : s.wlock with
   | call c0 =>
     have := hD.lockClosed hc
     rw [hw] at this; cases this
-  | closer => exact closer_progress cfg hmax s hr hc hw
+  | closer =>
+    obtain ⟨e, h1, h2, h3⟩ := closer_progress cfg hmax s hr hc hw
+    exact ⟨e, h1, fun _ => h2, h3⟩
   | free =>
     by_cases hent : 0 < s.entered
-    · exact ⟨.empty, rfl, by simp [step, hent]⟩
+    · exact ⟨.empty, rfl, fun h0 => by omega, by simp [step, hent]⟩
     · have hent0 : s.entered = 0 := by omega
       by_cases hex : s.pwIds.all (fun pw => match s.pws pw with | some P => P.sender == .exited | none => false) = true
       · -- every goroutine is gone: an open call remains
@@ -520,7 +567,8 @@ theorem close_progress (cfg : Cfg) (hmax : 1 ≤ cfg.maxAttempts) (s : State) (h
         | none => simp [openCall, hCc] at hoc
         | some C =>
           have hph : C.phase ≠ .returned := by simpa [openCall, hCc] using hoc
-          exact call_progress cfg s hr hc hw hall c C hCc hph
+          obtain ⟨e, h1, h2, h3⟩ := call_progress cfg s hr hc hw hall c C hCc hph
+          exact ⟨e, h1, fun _ => h2, h3⟩
       · have : ∃ pw ∈ s.pwIds, (match s.pws pw with | some P => P.sender == .exited | none => false) = false := by
           simpa [List.all_eq_true] using hex
         obtain ⟨pw, hmem, hnot⟩ := this
@@ -531,6 +579,21 @@ theorem close_progress (cfg : Cfg) (hmax : 1 ≤ cfg.maxAttempts) (s : State) (h
           rw [hPw] at hnot
           have hne : P.sender ≠ .exited := by
             intro h; simp [h] at hnot
-          exact sender_progress cfg hmax s hr hc hw pw P hPw hne
+          obtain ⟨e, h1, h2, h3⟩ := sender_progress cfg hmax s hr hc hw pw P hPw hne
+          exact ⟨e, h1, fun _ => h2, h3⟩
+
+theorem close_progress (cfg : Cfg) (hmax : 1 ≤ cfg.maxAttempts) (s : State) (hr : Reachable cfg s)
+    (hc : s.closed = true) (hn : step cfg s .closeReturn = none) :
+    ∃ e, driven e = true ∧ (step cfg s e).isSome = true := by
+  obtain ⟨e, h1, -, h3⟩ := close_progress' cfg hmax s hr hc hn
+  exact ⟨e, h1, h3⟩
+
+/-- the same with the enabled event taken from the set `closing` the termination measure is about, once no call is
+between `enter()` and its identification -/
+theorem close_progress_closing (cfg : Cfg) (hmax : 1 ≤ cfg.maxAttempts) (s : State) (hr : Reachable cfg s)
+    (hc : s.closed = true) (he : s.entered = 0) (hn : step cfg s .closeReturn = none) :
+    ∃ e, closing s e = true ∧ (step cfg s e).isSome = true := by
+  obtain ⟨e, -, h2, h3⟩ := close_progress' cfg hmax s hr hc hn
+  exact ⟨e, h2 he, h3⟩
 
 end KV.WriterCloseDetail
